@@ -73,6 +73,7 @@ class FSCM:
         self.total = sum(self.weights)
         self._solved = {}
         self._masks = {}
+        self._np_weights = None
 
     @staticmethod
     def _make_h(v, args, salt):
@@ -125,40 +126,35 @@ class FSCM:
             self._solved[world] = r
         return r
 
-    def mask(self, name, world, value) -> int:
-        """Bitmask over settings where variable ``name`` takes ``value`` in ``world``."""
+    def mask(self, name, world, value):
+        """Boolean vector over settings where variable ``name`` takes ``value`` in ``world``."""
+        import numpy as np
+
         k = (name, world, value)
         m = self._masks.get(k)
         if m is None:
             i = self.index[name]
-            m = 0
-            for s, vals in enumerate(self.solve(world)):
-                if vals[i] == value:
-                    m |= 1 << s
+            m = np.fromiter((vals[i] == value for vals in self.solve(world)), dtype=bool, count=len(self.settings))
             self._masks[k] = m
         return m
 
-    def weight_of_mask(self, m: int) -> int:
-        w = 0
-        s = 0
-        ws = self.weights
-        while m:
-            if m & 1:
-                w += ws[s]
-            m >>= 1
-            s += 1
-        return w
-
     def prob_items(self, items) -> Fraction:
-        """P(conjunction of (name, world, value) items)."""
-        m = (1 << len(self.settings)) - 1
+        """P(conjunction of (name, world, value) items), exact (integer weights, int64 sums cannot overflow for n <= 4)."""
+        import numpy as np
+
+        if self._np_weights is None:
+            if self.total >= 2**62:
+                raise OverflowError("witness too large for int64 weights")
+            self._np_weights = np.array(self.weights, dtype=np.int64)
+        m = None
         for name, world, value in items:
             if len(dict(world)) != len(world):
                 return Fraction(0)  # contradictory intervention set cannot be realised: treated by callers
-            m &= self.mask(name, world, value)
-            if not m:
-                return Fraction(0)
-        return Fraction(self.weight_of_mask(m), self.total)
+            mk = self.mask(name, world, value)
+            m = mk if m is None else (m & mk)
+        if m is None:
+            return Fraction(1)
+        return Fraction(int(self._np_weights[m].sum()), self.total)
 
     def value_in_setting(self, name, world, s) -> int:
         return self.solve(world)[s][self.index[name]]
